@@ -146,8 +146,15 @@ func genAuthPlan(r *rand.Rand, tier, focus string) *vfPlan {
 		n = 4 + r.IntN(6)
 	}
 	mintShare := 0.25
+	ipcertShare := 2
 	if focus == "C01" {
 		mintShare = 0.6
+		if chance(r, 0.4) {
+			// an automation certificate exists from the start and is a frequent credential
+			add(vfStep{Op: "mintsession", Sess: "adm", User: pick(r, []string{"root", "autoadmin"}), N: int64(AuthTypeU2F | AuthTypePassword)})
+			add(vfStep{Op: "rolecert", Sess: "adm", A: pick(r, []string{"auto1", "auto2"}), L: []string{pick(r, vfNetChoices)}, B: pick(r, []string{"user_p256_3", "user_rsa2048_4"})})
+			ipcertShare = 6
+		}
 	}
 	anyTok := func() string {
 		if tokN == 0 {
@@ -182,7 +189,11 @@ func genAuthPlan(r *rand.Rand, tier, focus string) *vfPlan {
 			if chance(r, 0.3) {
 				bits = pick(r, []int{AuthTypePassword, AuthTypePassword | AuthTypeBootstrapOTP, AuthTypePassword | AuthTypeTOTP, AuthTypeFederated, AuthTypeWebauthForCLI, AuthTypeKeymasterX509, AuthTypeFIDO2, AuthTypePassword | AuthTypeOkta2FA, 0})
 			}
-			add(vfStep{Op: "mintsession", Sess: s, User: nu, N: int64(bits), D: pick(r, []string{"16h", "16h", "1h", "10m", "45s", "15h"})})
+			ms := vfStep{Op: "mintsession", Sess: s, User: nu, N: int64(bits), D: pick(r, []string{"16h", "16h", "1h", "10m", "45s", "15h"})}
+			if chance(r, 0.08) {
+				ms.A = "notyet:" + pick(r, []string{"30s", "10m", "2h"})
+			}
+			add(ms)
 			sessUser[s] = nu
 		case u == "" || x < 8:
 			nu := pick(r, vfHonestUsers)
@@ -304,6 +315,14 @@ func genAuthPlan(r *rand.Rand, tier, focus string) *vfPlan {
 			case 6:
 				add(vfStep{Op: "pushpoll", Sess: s, A: "sess:" + pick(r, vfSessNames)})
 			}
+			if chance(r, 0.1) {
+				// the same request also carries another session's cookie (first in the Cookie header)
+				last := &p.Steps[len(p.Steps)-1]
+				switch last.Op {
+				case "totp", "vipotp", "pushpoll", "u2fsignresp", "webauthn_finish", "bootstrapotp":
+					last.L = append(last.L, "precookie:"+pick(r, vfSessNames))
+				}
+			}
 		case x < 75:
 			// certificate request
 			typ := pick(r, []string{"", "ssh", "x509", "x509", "x509-kubernetes", "bogus"})
@@ -343,10 +362,15 @@ func genAuthPlan(r *rand.Rand, tier, focus string) *vfPlan {
 				st.C = "cert:last:usercert:" + u
 			case c == 5:
 				st.C = "cert:last:usercert"
-			case c == 6 || c == 7:
+			case c >= 6 && c < 6+ipcertShare:
 				st.C = "cert:last:ipcert"
 				st.User = pick(r, []string{"auto1", "auto1", "auto2", u})
 				st.Target = pick(r, vfPeerChoices)
+				if chance(r, 0.2) {
+					// from the local host, claiming to forward for some other address
+					st.Target = "127.0.0.1"
+					st.L = append(st.L, "fwd:"+pick(r, vfPeerChoices))
+				}
 			}
 			add(st)
 		case x < 78 && p.Cfg.CliTokenLife != "":
